@@ -3,7 +3,7 @@ are copied, which are left to their default initialiser) and the skeletons of Ow
 view) and Worker::customEvent, as values of the IR of AsyncDefs.v."""
 import re
 from .common import rd, need, strip_comments, AnchorError, HDR
-from .conc import preprocess, Walker, parse_function, _split_args, _balanced
+from .conc import preprocess, Walker, parse_function, _split_args, _balanced, walk, flush_when_running
 
 MEMBERS = {'m_type': 'FType', 'm_message': 'FText', 'm_time': 'FTime', 'm_steadyTime': 'FSteady',
            'm_qthreadptr': 'FTid', 'm_formattedMessage': 'FFmt', 'm_attributes': 'FAttrs'}
@@ -94,6 +94,9 @@ def generate():
          'LogEvent constructor copies the message')
     need(re.search(r'\n\s*LogMessage\s+lmsg\s*;', oh), 'LogEvent holds the LogMessage by value')
     need(re.search(r'm_worker->moveToThread\(m_thread\)', oh), 'the worker object lives in the own thread')
+    # Logger::processMessage: the fatal branch may flush the sinks from the calling thread only while no own thread runs
+    lg = strip_comments(rd('logger.cpp'))
+    pm = walk(lg, 'Logger::processMessage', 'Logger::processMessage', view='async', guards='take')
     tab = copy_table()
     out = HDR % 'src/qtlogger/logmessage.h, ownthreadhandler.h'
     out += 'Require Import List.\nImport ListNotations.\nRequire Import QtlVerif.AsyncDefs.\n'
@@ -103,4 +106,6 @@ def generate():
     out += 'Definition src_copy_cfg : copy_cfg := cfg_of src_copy_table.\n'
     out += '(* OwnThreadHandler<BaseHandler>::process *)\nDefinition src_process : list ainstr :=\n  %s.\n' % to_coq(proc)
     out += '(* OwnThreadHandler<BaseHandler>::Worker::customEvent *)\nDefinition src_custom_event : list ainstr :=\n  %s.\n' % to_coq(cev)
+    out += '(* does Logger::processMessage reach flush() (Sink::flush on the CALLING thread) while the own thread is running? *)\n'
+    out += 'Definition src_caller_flushes_while_worker_runs : bool := %s.\n' % ('true' if flush_when_running(pm) else 'false')
     return {'SrcAsync.v': out}
